@@ -276,19 +276,17 @@ type ConcCase struct {
 func checkConc(c ConcCase, r *Recorder) error {
 	r.Case(jsonKey(c.Perm)+fmt.Sprint(len(c.Inputs)), true)
 	r.Evals(int64(len(c.Inputs)) * 33)
-	seq := make([]callResult, len(c.Inputs))
-	for i, in := range c.Inputs {
-		res, err := callGuarded(in.EP, in.Input)
-		if err != nil {
-			return err
-		}
-		seq[i] = res
-	}
+	// Phase A: concurrent calls FIRST, on inputs no call has seen yet, so that
+	// lazily initialised shared state (caches, memo tables, scratch buffers)
+	// is populated under contention.  Phase B: the sequential reference.
 	const workers = 32
+	n := len(c.Inputs)
+	got := make([][]callResult, workers)
 	var wg sync.WaitGroup
 	errs := make(chan error, workers)
 	for w := 0; w < workers; w++ {
 		wg.Add(1)
+		got[w] = make([]callResult, n)
 		go func(w int) {
 			defer wg.Done()
 			defer func() {
@@ -296,7 +294,6 @@ func checkConc(c ConcCase, r *Recorder) error {
 					errs <- errf("panic in concurrent call: %v", p)
 				}
 			}()
-			n := len(c.Inputs)
 			for k := 0; k < n; k++ {
 				// every worker walks the list in its own order
 				idx := (k*(2*w+1) + w*7) % n
@@ -304,11 +301,7 @@ func checkConc(c ConcCase, r *Recorder) error {
 					idx = c.Perm[(k+w*13)%n]
 				}
 				in := c.Inputs[idx]
-				res := entryPoints[in.EP](in.Input)
-				if res.Err != seq[idx].Err || !reflect.DeepEqual(res.Val, seq[idx].Val) {
-					errs <- errf("%s on %q gives a different result when called concurrently with other parsers: %+v/err=%v vs sequential %+v/err=%v", in.EP, clip(in.Input), res.Val, res.Err, seq[idx].Val, seq[idx].Err)
-					return
-				}
+				got[w][idx] = entryPoints[in.EP](in.Input)
 			}
 		}(w)
 	}
@@ -323,6 +316,17 @@ func checkConc(c ConcCase, r *Recorder) error {
 	case err := <-errs:
 		return err
 	default:
+	}
+	for i, in := range c.Inputs {
+		res, err := callGuarded(in.EP, in.Input)
+		if err != nil {
+			return err
+		}
+		for w := 0; w < workers; w++ {
+			if c := got[w][i]; c.Err != res.Err || !reflect.DeepEqual(c.Val, res.Val) {
+				return errf("%s on %q gave a different result when called concurrently with other parsers: %+v/err=%v vs sequential %+v/err=%v", in.EP, clip(in.Input), c.Val, c.Err, res.Val, res.Err)
+			}
+		}
 	}
 	// a data race report (binary built with -race, GORACE=log_path=...) is a violation
 	if lp := os.Getenv("VERIF_RACE_LOG"); lp != "" {
